@@ -668,6 +668,8 @@ class Exprs:
             m = self.ite_merge(cs, a, b)
             if m is not None:
                 return m
+            if not self._qstate()["bound"]:
+                return a if self.path.branch(cs) else b
             raise Unsupported("conditional expression in spec with unmergeable arms")
         if self.path.branch(cs):
             return self.ev(node.body, fr)
